@@ -62,11 +62,14 @@ def _sanitised(block, idx, var):
         # n = n if n > 0 else 1.0
         if isinstance(s, ast.Assign) and len(s.targets) == 1 and isinstance(s.targets[0], ast.Name) and s.targets[0].id == var:
             v = s.value
-            if isinstance(v, ast.IfExp) and isinstance(v.test, ast.Compare) and norm(v.test.left) == var and isinstance(v.test.ops[0], ast.Gt) \
-                    and norm(v.body) == var and _positive_const(v.orelse):
-                return True
+            if isinstance(v, ast.IfExp) and isinstance(v.test, ast.Compare) and isinstance(v.test.ops[0], ast.Gt) and isinstance(v.body, ast.Name) \
+                    and norm(v.test.left) == v.body.id and _positive_const(v.orelse) and isinstance(v.test.comparators[0], ast.Constant) \
+                    and v.test.comparators[0].value == 0:
+                return True      # n = m if m > 0 else 1.0 (m may be n itself)
             if _positive_const(v):
                 return True
+            if isinstance(v, ast.Name) and v.id != var:
+                return _sanitised(block, j, v.id)      # a plain copy `n = m`: positive when m is
             return False        # re-defined (by the norm itself or something else) without sanitising
         # if n > 0: ... else: n = 1.0
         if isinstance(s, ast.If) and isinstance(s.test, ast.Compare) and norm(s.test.left) == var and isinstance(s.test.ops[0], ast.Gt):
@@ -150,8 +153,14 @@ def _helper_defined(model, f, block, idx, var):
     return False
 
 
+def _view(model: Model, short: str) -> Func:
+    """the function with its small private helpers read in place (norm sanitising, unit interfaces moved into helpers)"""
+    from .inline import inlined
+    return inlined(model, model.func(short))
+
+
 def rule_zero_norm(model: Model, short: str):
-    f = model.func(short)
+    f = _view(model, short)
     obs = []
     tr = _trackers(f)
     if not tr:
@@ -161,6 +170,10 @@ def rule_zero_norm(model: Model, short: str):
     helper_vars = {n.targets[0].id for n in ast.walk(f.node) if isinstance(n, ast.Assign) and len(n.targets) == 1 and isinstance(n.targets[0], ast.Name)
                    and _sanitising_helper(model, f, n.value)}
     norm_vars |= helper_vars
+    for _ in range(3):      # plain copies of a norm are norms
+        norm_vars |= {n.targets[0].id for n in ast.walk(f.node) if isinstance(n, ast.Assign) and len(n.targets) == 1 and isinstance(n.targets[0], ast.Name)
+                      and ((isinstance(n.value, ast.Name) and n.value.id in norm_vars)
+                           or (isinstance(n.value, ast.IfExp) and isinstance(n.value.body, ast.Name) and n.value.body.id in norm_vars))}
     seen = {}
     for block in _blocks(f.node):
         for i, s in enumerate(block):
@@ -169,6 +182,18 @@ def rule_zero_norm(model: Model, short: str):
                 tgt, val = s.targets[0], s.value
             elif isinstance(s, ast.AugAssign):
                 tgt, val = s.target, s.value
+            pairs = [(tgt, val)]
+            if isinstance(tgt, ast.Tuple) and isinstance(val, ast.Tuple) and len(tgt.elts) == len(val.elts):
+                pairs = list(zip(tgt.elts, val.elts))      # X[k], tracker[e] = X[k] / n, n : element-wise stores
+            for tgt, val in pairs:
+                obs += _zero_norm_store(model, f, short, tr, norm_vars, seen, block, i, s, tgt, val)
+    return obs
+
+
+def _zero_norm_store(model, f, short, tr, norm_vars, seen, block, i, s, tgt, val):
+    obs = []
+    if True:
+        if True:
             if isinstance(tgt, ast.Tuple) and isinstance(val, ast.Call):
                 # X, tracker[e] = helper(...): the helper hands the norm back as one element of its result
                 for j, te in enumerate(tgt.elts):
@@ -187,12 +212,12 @@ def rule_zero_norm(model: Model, short: str):
                                           f"{short}: `{text}` stores a norm returned by `{norm(val.func)}` in the tracker `{te.value.id}`, and that helper does not "
                                           f"replace a zero norm by a positive constant; a zero iterate / interface makes the tracker 0, and the later division "
                                           f"by it (nrmsc) / its logarithm gives inf or nan"))
-                continue
+                return obs
             if tgt is None or not (isinstance(tgt, ast.Subscript) and isinstance(tgt.value, ast.Name) and tgt.value.id in tr):
-                continue
+                return obs
             used = [x.id for x in ast.walk(val) if isinstance(x, ast.Name) and x.id in norm_vars]
             if not used:
-                continue
+                return obs
             text = norm(s)
             n = seen.get(text, 0)
             seen[text] = n + 1
@@ -320,7 +345,7 @@ def rule_scale_free(model: Model, short: str):
     """A norm of the data (an iterate, an interface, a residual) is compared with zero or with another data-dependent quantity, never with
     a fixed non-zero number: the operands may have any magnitude (x*y of two tensors of norm 1e-10 has norm 1e-20), so `norm > 1e-14` treats
     a perfectly valid small tensor as zero.  One obligation per comparison in which a norm-defined local takes part."""
-    f = model.func(short)
+    f = _view(model, short)
     obs = []
     norm_vars = set()
     for n in ast.walk(f.node):
@@ -334,12 +359,32 @@ def rule_scale_free(model: Model, short: str):
         if isinstance(e, ast.UnaryOp) and isinstance(e.op, (ast.USub, ast.UAdd)):
             e = e.operand
         return e.value if isinstance(e, ast.Constant) and isinstance(e.value, (int, float)) and not isinstance(e.value, bool) else None
+    a_ = f.node.args
+    params = {x.arg for x in a_.posonlyargs + a_.args + a_.kwonlyargs}
+    stored = {x.id for x in ast.walk(f.node) if isinstance(x, ast.Name) and isinstance(x.ctx, ast.Store)}
+    # tolerances: parameters that are only ever read, and that are compared somewhere with a quotient of two norms (a relative quantity)
+    rel_vars = {x.targets[0].id for x in ast.walk(f.node) if isinstance(x, ast.Assign) and len(x.targets) == 1 and isinstance(x.targets[0], ast.Name)
+                and isinstance(x.value, ast.BinOp) and isinstance(x.value.op, ast.Div) and is_norm(x.value.left) and is_norm(x.value.right)}
+    tolerances = set()
+    for n in ast.walk(f.node):
+        if isinstance(n, ast.Compare) and len(n.ops) == 1:
+            for a, b in ((n.left, n.comparators[0]), (n.comparators[0], n.left)):
+                if isinstance(a, ast.Name) and a.id in rel_vars and isinstance(b, ast.Name) and b.id in params and b.id not in stored:
+                    tolerances.add(b.id)
     seen = {}
     for n in ast.walk(f.node):
         if not (isinstance(n, ast.Compare) and len(n.ops) == 1):
             continue
         l, r = n.left, n.comparators[0]
         for a, b in ((l, r), (r, l)):
+            if is_norm(a) and isinstance(b, ast.Name) and b.id in tolerances:
+                text = norm(n)
+                c = seen.get(text, 0)
+                seen[text] = c + 1
+                obs.append(Ob("SCALE-FREE", f"{short}:SCALE-FREE:{text}:{c}", VIOLATED, model.where(f, n), text,
+                              f"{short}: `{text}` compares the absolute norm `{norm(a)}` with `{b.id}`, which elsewhere in this function bounds a *relative* "
+                              "residual (a quotient of two norms): for right-hand sides of small norm the test is met at once and the solver returns without "
+                              "improving its iterate"))
             if is_norm(a) and number(b) is not None:
                 text = norm(n)
                 c = seen.get(text, 0)
